@@ -191,3 +191,42 @@ Proof.
   apply (wt_nce_agg bs be every off He). apply Forall_concat_inv. rewrite Ec.
   apply oracle_agg_out; assumption.
 Qed.
+
+(** ---- *WindowTable without createEmpty fed with SELECTED POINTS (a selector that table.fill()
+    forces to be treated as an aggregate): one row per point, the point's own window clipped,
+    every array consumed (the table ends). *)
+Section ForcedSelector.
+Variables (bs be every off : Z).
+Hypothesis He : 0 < every.
+
+Lemma in_window_sel (ts : Z) : ts < be ->
+  is_in_window every off false (clip_stop be (wstart every off ts + every)) ts = true.
+Proof.
+  intro Hb. unfold is_in_window, wstart. rewrite clip_stop_min.
+  pose proof (ns_start_le every off ts He) as Hs.
+  assert (E : ns_start every off (Z.min be (ns_start every off ts + every) - 1) = ns_start every off ts).
+  { apply ns_start_unique; [exact He|apply ns_start_grid; exact He|lia]. }
+  rewrite E. lia.
+Qed.
+
+Lemma wt_arr_sel tc fillv (a : list (Z * val)) :
+  Forall (fun p => fst p < be) a ->
+  wt_arr bs be every off tc false fillv (map fst a) a
+  = (map (fun p => mk_row bs be every tc (ns_start every off (fst p)) None (Some (snd p))) a, length a).
+Proof.
+  induction a as [|p a IH]; intro H; [reflexivity|].
+  inversion H as [|? ? Hb Ha]; subst. cbn [map wt_arr length].
+  rewrite in_window_sel by exact Hb. rewrite IH by exact Ha. reflexivity.
+Qed.
+
+Lemma wt_nce_sel tc fillv (arrs : list (list (Z * val))) :
+  Forall (Forall (fun p => fst p < be)) arrs ->
+  wt_nce bs be every off tc false fillv arrs
+  = Some (map (fun p => mk_row bs be every tc (ns_start every off (fst p)) None (Some (snd p))) (concat arrs)).
+Proof.
+  induction arrs as [|a arrs IH]; intro H; [reflexivity|].
+  inversion H as [|? ? Ha Hr]; subst. cbn [wt_nce concat].
+  rewrite wt_arr_sel by exact Ha. rewrite Nat.eqb_refl, IH by exact Hr.
+  rewrite map_app. reflexivity.
+Qed.
+End ForcedSelector.
